@@ -104,6 +104,21 @@ class C15(Spec):
         return cases
 
     def oracle(self, case, impl):
+        what = self.oracle1(case, impl)
+        if what and "was answered by the server but its promise was R" in what and not getattr(self, "_again", False):
+            # the scripts run on margins of a few hundred milliseconds between the server's delays and the client's time-outs: on a
+            # loaded machine a time-out can win; the case is run again, alone, and counts only if it fails again
+            self._again = True
+            try:
+                again, _ = pv.run_parallel([pv.build_harness(self.harness, self.variant)], [case], shard=1, env=getattr(self, "env", None) or {"PV_CASE_TIMEOUT": "60"})
+                what = self.oracle1(case, again[0])
+                if what:
+                    what += " [also when run again alone]"
+            finally:
+                self._again = False
+        return what
+
+    def oracle1(self, case, impl):
         if impl.startswith(("CRASH", "HANG")):
             return "client harness %s on %s (the client stopped making progress)" % (impl, case)
         t = case.split()
